@@ -125,6 +125,8 @@ def run_automaton(fn, pipe, seq, k0, accept_ret):
         if not succ and b != fn.exit:
             continue
         for s in succ:
+            if (b, s) in fn.infeasible_edges():
+                continue
             if s == fn.exit and not any(ev["k"] == "ret" for ev in blk["ev"]):
                 # falling off the end of a void function: treat as accepting return
                 if accept_ret(b, None) and k < len(seq):
